@@ -55,8 +55,8 @@ Qed.
 (** * frames *)
 Record MFrOk (s : state) (n : node) (fr : frame) : Prop := {
   mo_scc : fr_scc fr = false;
-  mo_unordered : fr_unordered fr = false;
-  mo_order : fr_order fr = map DSingle (map fst (fr_callees fr));
+  mo_unord : fr_unordered fr = true -> exists o g, fr_order fr = o ++ [DUnordered g];
+  mo_order : all_callees (fr_order fr) = map fst (fr_callees fr);
   mo_all : forall x o, In (x, o) (fr_callees fr) -> o <> None;
   mo_entry : forall d, In d (map fst (fr_callees fr)) ->
      exists i, alookup (fr_callees fr) d = Some (Some (i_value i, i_tfc i)) /\
@@ -89,7 +89,7 @@ Lemma MFrOk_obs : forall s n fr d, MFrOk s n fr ->
   alookup (fr_observations fr) d = match alookup (fr_callees fr) d with Some (Some o) => Some o | _ => None end.
 Proof. intros s n fr d H. unfold fr_observations. apply observations_lookup. apply (mo_all _ _ _ H). Qed.
 Lemma MFrOk_callees : forall s n fr, MFrOk s n fr -> all_callees (fr_order fr) = map fst (fr_callees fr).
-Proof. intros s n fr H. rewrite (mo_order _ _ _ H). apply all_callees_single. Qed.
+Proof. intros s n fr H. apply (mo_order _ _ _ H). Qed.
 
 (** * [set_computed] *)
 (** the re-execution reproduced the value and (for a node that hands them up) the transitive
@@ -334,7 +334,7 @@ Proof.
   - (* mi_V *)
     intros m i Hi Hv. rewrite Hget in Hi. destruct (node_eqb_spec n m) as [<-|Hne].
     + inversion Hi. subst i. unfold ni, sc_info. cbn [i_value]. eapply MSpecI_exec; eauto.
-      eapply ev_msev; [eapply evr_ev; exact Hev|]. intros d x _ Hx. apply HfrS. exact Hx.
+      eapply evr_msev; [exact Hev|]. intros d x _ Hx. apply HfrS. exact Hx.
     + eapply mi_V; eauto. congruence.
   - (* mi_PV *)
     intros x Hx. unfold s' in Hx. rewrite set_computed_visited in Hx. right.
